@@ -85,12 +85,22 @@ def sh(cmd, cwd=None, timeout=3000):
 
 
 def theorem_names(path):
+    """fully qualified names of the (non-private) theorems of a Lean file"""
     names = []
+    stack = []
     if os.path.exists(path):
         for line in open(path):
+            m = re.match(r"\s*namespace\s+(\S+)", line)
+            if m:
+                stack.append(m.group(1))
+                continue
+            m = re.match(r"\s*end\s+(\S+)\s*$", line)
+            if m and stack and stack[-1] == m.group(1):
+                stack.pop()
+                continue
             m = re.match(r"\s*(?:@\[[^\]]*\]\s*)?theorem\s+([^\s:({\[]+)", line)   # private helpers are covered transitively
             if m:
-                names.append(m.group(1))
+                names.append(".".join(stack + [m.group(1)]))
     return names
 
 
@@ -109,7 +119,7 @@ def theorem_at(path, lineno):
 def regenerate():
     """translators A and B: rewrite generated Lean files only when their content changes"""
     report = {}
-    for mod in ("extract", "trace"):
+    for mod in ("extract", "effects", "trace"):
         if os.path.exists(os.path.join(HERE, mod + ".py")):
             m = importlib.import_module(mod)
             report[mod] = m.regenerate(REPO, os.path.join(LEAN, "Geo", "Gen"))
@@ -170,7 +180,7 @@ def audit(prop, files):
     auditdir = os.path.join(LEAN, "Audit")
     os.makedirs(auditdir, exist_ok=True)
     mods = [f[:-5].replace("/", ".") for f in files]
-    src = "".join(f"import {m}\n" for m in mods) + "open Geo\n" + "".join(f"#print axioms {n}\n" for n in names)
+    src = "".join(f"import {m}\n" for m in mods) + "".join(f"#print axioms {n}\n" for n in names)
     ap = os.path.join(auditdir, f"{prop}.lean")
     if not os.path.exists(ap) or open(ap).read() != src:
         open(ap, "w").write(src)
